@@ -11,10 +11,17 @@ pub assume_specification [std::string::String::from_utf8_unchecked] (v: std::vec
 pub trait VxStr {
     fn vx_len(&self) -> (r: usize);
     fn vx_as_bytes(&self) -> (r: &[u8]);
+    fn vx_strip_suffix_char(&self, c: char) -> (r: Option<&str>);
 }
 impl VxStr for str {
     #[verifier::external_body] fn vx_len(&self) -> (r: usize) ensures r == vx_utf8(self@).len() { self.len() }
     #[verifier::external_body] fn vx_as_bytes(&self) -> (r: &[u8]) ensures r@ == vx_utf8(self@) { self.as_bytes() }
+    /// for an ASCII char c: Some(t) iff the string's last byte is c, and then t is the string without it
+    #[verifier::external_body] fn vx_strip_suffix_char(&self, c: char) -> (r: Option<&str>)
+        ensures (c as u32) < 128 ==> (match r {
+            Some(t) => vx_utf8(self@).len() > 0 && vx_utf8(self@).last() == c as u8 && vx_utf8(t@) == vx_utf8(self@).drop_last(),
+            None => vx_utf8(self@).len() == 0 || vx_utf8(self@).last() != c as u8 })
+    { self.strip_suffix(c) }
 }
 
 pub assume_specification<'a> [std::str::from_utf8_unchecked] (v: &'a [u8]) -> (r: &'a str)
